@@ -162,6 +162,14 @@ func runWriter(c WCase) *vk.Violation {
 	// mirrored read sequence
 	data, _ := w.Bytes()
 	r := packet.NewPacketReader(data)
+	type held struct {
+		i    int
+		k    string
+		b    []byte // a []byte result kept as returned (not copied)
+		want string
+	}
+	var kept []held
+	defer func() { _ = kept }()
 	for i, op := range c.Ops {
 		s := vk.UnHex(op.S)
 		var got, want any
@@ -180,7 +188,9 @@ func runWriter(c WCase) *vk.Violation {
 				r.ReadBytes(buf)
 				got, want = string(buf), string(s)
 			} else {
-				got, want = string(r.ReadNBytes(len(s))), string(s)
+				nb := r.ReadNBytes(len(s))
+				kept = append(kept, held{i, op.K, nb, string(s)}) // looked at again after all later reads
+				got, want = string(nb), string(s)
 			}
 		case "str":
 			got, want = r.ReadCStringNWithoutTrim(len(s)), string(s)
@@ -202,6 +212,12 @@ func runWriter(c WCase) *vk.Violation {
 	}
 	if r.Remaining() != 0 {
 		return vk.Violf("mirror/remaining", c, "after the mirrored reads %d octets remain", r.Remaining())
+	}
+	// values returned earlier belong to the caller: later reads on the same reader must not have changed them
+	for _, h := range kept {
+		if string(h.b) != h.want {
+			return vk.Violf("mirror/earlier-read-result-changed", c, "the octets returned by read %d (%s) changed after later reads on the same reader: now %x, written %x", h.i, h.k, h.b, h.want)
+		}
 	}
 	return nil
 }
@@ -411,6 +427,15 @@ var writeOp = rapid.Custom(func(t *rapid.T) Op {
 		switch rapid.IntRange(0, 9).Draw(t, "nclass") {
 		case 0:
 			op.N = rapid.IntRange(-1, l).Draw(t, "n") // may be too short: injected failure
+			if op.N >= 0 && op.N < l && rapid.Bool().Draw(t, "blanktail") {
+				// the part that does not fit consists of blanks (or NULs): still too long, still a failure
+				b := vk.UnHex(op.S)
+				fillc := rapid.SampledFrom([]byte{' ', ' ', 0, '\t'}).Draw(t, "fillc")
+				for k := op.N; k < len(b); k++ {
+					b[k] = fillc
+				}
+				op.S = vk.Hex(b)
+			}
 		case 1:
 			op.N = l
 		default:
